@@ -233,6 +233,10 @@ func renderSTLRow(runs []stlRun, teletext, spaceAround bool) ([]byte, bool) {
 	color, dh := -1, false
 	started := false
 	for i, r := range runs {
+		if teletext && started && i > 0 && len(r.Text)%4 == 1 {
+			// the box is closed after the previous run and opened again for this one (two boxed parts in one row)
+			out = append(out, 0x0a, 0x0a, 0x0b, 0x0b)
+		}
 		if teletext {
 			if r.Color != color && r.Color >= 0 {
 				out = append(out, byte(r.Color))
@@ -879,6 +883,11 @@ func toSubtitlesSTL(d stlDoc, meta string) *astisub.Subtitles {
 		g := d.GSI
 		cd, _ := time.Parse("060102", g.CD)
 		rd, _ := time.Parse("060102", g.RD)
+		if g.RN%3 == 1 {
+			// the same calendar days given as instants of other time zones, close to midnight
+			cd = time.Date(cd.Year(), cd.Month(), cd.Day(), 0, 30, 0, 0, time.FixedZone("east", 2*3600))
+			rd = time.Date(rd.Year(), rd.Month(), rd.Day(), 23, 40, 0, 0, time.FixedZone("west", -5*3600))
+		}
 		mnc, mnr := g.MNC, g.MNR
 		s.Metadata = &astisub.Metadata{Framerate: rate, STLDisplayStandardCode: g.DSC, Title: g.OPT, STLOriginalEpisodeTitle: g.OET, STLTranslatedProgramTitle: g.TPT, STLTranslatedEpisodeTitle: g.TET,
 			STLTranslatorName: g.TN, STLTranslatorContactDetails: g.TCD, STLSubtitleListReferenceCode: g.SLR, STLCreationDate: &cd, STLRevisionDate: &rd, STLRevisionNumber: g.RN,
